@@ -320,6 +320,71 @@ class Case:
             for pr in FakeProcess.all:
                 pr.dies_on_term = True
 
+    def scan_block(self, events):
+        """events = [scan_begin, (scan_step | other event)*, scan_end]: ONE real call of the
+        timeout scan, paused between the jobs of its cache snapshot through the dict copy it
+        takes (`copy.copy(self.cache)`): the copy's items() runs the interleaved events
+        before handing out the next job.  Returns one observation per event."""
+        p = self.pool
+        out = []
+        if p._timeout_handler is None:
+            return [self.observe('NoScanner', None)] + [self.observe(None, None) for _ in events[1:]]
+        plan = list(events[1:-1])
+        case = self
+
+        class Snap(dict):
+            def items(snap):
+                real = list(dict.items(snap))
+                k = 0
+                while True:
+                    # run everything scheduled before the next step
+                    while plan and plan[0][0] != 'scan_step':
+                        out.extend(case.run([plan.pop(0)]))
+                    if not plan:
+                        return
+                    ev = plan.pop(0)
+                    for pr in FakeProcess.all:
+                        pr.dies_on_term = not ev[1]
+                    if k < len(real):
+                        yield real[k]
+                    k += 1
+                    out.append(case.observe(None, None))
+
+        real_copy = bp.copy.copy
+        orig_cache = p._timeout_handler.cache
+
+        def fake_copy(obj):
+            if obj is orig_cache:
+                return Snap(obj)
+            return real_copy(obj)
+        bp.copy.copy = fake_copy
+        first = []
+        try:
+            # the snapshot is taken when the generator starts; observe right after
+            it_obs = {}
+            th = p._timeout_handler
+            # begin: run the generator up to the snapshot by letting items() be called lazily;
+            # the state right after the snapshot equals the state before the first step
+            first.append(None)
+            try:
+                th.handle_event()
+            except Exception as e:      # the scan itself raised: an observation
+                out.append(self.observe(None, type(e).__name__))
+                if plan and plan[0][0] == 'scan_step':
+                    plan.pop(0)
+        finally:
+            bp.copy.copy = real_copy
+            for pr in FakeProcess.all:
+                pr.dies_on_term = True
+        # anything left in the plan (more steps than snapshot entries / trailing events)
+        while plan:
+            ev = plan.pop(0)
+            if ev[0] == 'scan_step':
+                out.append(self.observe(None, None))
+            else:
+                out.extend(self.run([ev]))
+        return ['BEGIN'] + out + [self.observe(None, None)]
+
     def ev_advance(self, dt):
         CLOCK[0] += dt
 
@@ -402,15 +467,28 @@ class Case:
         evs, out = [], []
         for _ in range(gen['length']):
             ev = g.next_event()
-            evs.append(ev)
-            out.extend(self.run([ev]))
+            block = ev if ev and isinstance(ev[0], list) else [ev]
+            evs.extend(block)
+            out.extend(self.run(block))
             if out[-1]['exc'] == 'Hang':
                 break
         return evs, out
 
     def run(self, events):
         out = []
-        for ev in events:
+        events = list(events)
+        while events:
+            ev = events.pop(0)
+            if ev[0] == 'scan_begin':
+                block = [ev]
+                while events and block[-1][0] != 'scan_end':
+                    block.append(events.pop(0))
+                begin_obs = self.observe(None, None)      # nothing observable changes at the snapshot
+                res = self.scan_block(block)
+                if res and res[0] == 'BEGIN':
+                    res[0] = begin_obs
+                out.extend(res)
+                continue
             ret = exc = None
             signal.alarm(EVENT_TIMEOUT)
             try:
